@@ -184,7 +184,7 @@ Proof.
   - destruct c; cbn [fst w_db];
       try (right; destruct (exec_db _ _) eqn:E; cbn [fst w_db]; reflexivity);
       try (left; reflexivity).
-    + left. destruct (l_createerr _); cbn [fst w_db set_ln]; reflexivity.
+    + left. destruct (l_createerr _ || _); cbn [fst w_db set_ln]; reflexivity.
     + left. destruct (l_inverr _); cbn [fst]; [reflexivity|]. destruct (find _ _); reflexivity.
     + left. destruct (pop _ _ _). reflexivity.
     + left. destruct (pop _ _ _). reflexivity.
